@@ -749,13 +749,13 @@ impl<const P: u8, const G: i8, const N: usize, const D: usize> Dut for NbDut<P, 
             }
             None if self.env.borrow().cfg.restore_into_used => {
                 // the device the stored session is installed into has a past of its own
-                let variant = self.env.borrow().op_idx % 3;
-                let (refs, pending) = {
+                let variant = self.env.borrow().op_idx % 4;
+                let (refs, pending, n_down, n_up) = {
                     let mut e = self.env.borrow_mut();
                     e.txn = Txn::default();
                     e.fault = None;
                     e.cursor = [0; 5];
-                    (e.refs.clone(), e.pending_join.clone())
+                    (e.refs.clone(), e.pending_join.clone(), e.sent_down.len(), e.sent_up.len())
                 };
                 match variant {
                     0 => {
@@ -774,10 +774,22 @@ impl<const P: u8, const G: i8, const N: usize, const D: usize> Dut for NbDut<P, 
                         self.env.borrow_mut().bump("probe.restore-after-unanswered-join");
                     }
                     _ => {
-                        // the fresh device first runs on another session for one uplink
+                        // the fresh device first runs on another session for one uplink: other keys and address and
+                        // a frame of that session heard in RX1 (2), or other keys under the very address of the
+                        // stored session with counters far ahead of it (3)
                         let other = {
-                            let e = self.env.borrow();
-                            make_session(&e.id.foreign, 7, Some(3))
+                            let mut e = self.env.borrow_mut();
+                            let mut keys = e.id.foreign;
+                            if variant == 3 {
+                                keys.devaddr = s.devaddr().value();
+                                make_session(&keys, s.fcnt_up.saturating_add(5).min(0xFFFF_FFF0), Some(0x00FF_0000))
+                            } else {
+                                let mut d = DataSpec::plain(1);
+                                d.tamper = Tamper::ForeignSession;
+                                d.body = Body::Data { port: 4, len: 2 };
+                                e.txn.rx1.push(FrameSpec::Data(d));
+                                make_session(&keys, 7, Some(3))
+                            }
                         };
                         self.dev = Self::build(&self.env, Some(other));
                         self.env.borrow_mut().push(Ev::Note("the fresh device first sends one uplink on another session".into()));
@@ -785,7 +797,8 @@ impl<const P: u8, const G: i8, const N: usize, const D: usize> Dut for NbDut<P, 
                         if r.is_panic() {
                             return Err(format!("PANIC in the uplink before the restore: {r:?}"));
                         }
-                        self.env.borrow_mut().bump("probe.restore-after-other-session");
+                        let _ = self.take_downlinks();
+                        self.env.borrow_mut().bump(if variant == 3 { "probe.restore-after-other-session-same-address" } else { "probe.restore-after-other-session" });
                     }
                 }
                 {
@@ -793,6 +806,9 @@ impl<const P: u8, const G: i8, const N: usize, const D: usize> Dut for NbDut<P, 
                     let mut e = self.env.borrow_mut();
                     e.refs = refs;
                     e.pending_join = pending;
+                    // ... and the frames of this episode are not among those a later replay / echo picks from
+                    e.sent_down.truncate(n_down);
+                    e.sent_up.truncate(n_up);
                 }
                 self.dev.set_session(s);
             }
